@@ -6,6 +6,7 @@ import (
 	"os"
 	"runtime"
 	"sort"
+	"strings"
 	"sync"
 	"time"
 
@@ -26,13 +27,14 @@ func init() {
 	Recorders["conc"] = recordConc
 }
 
-var concTexts = []string{"a + b * 2", "$t = a, $t + b", "a + b", "[regexp(s1, 'ab'), regexp(s2, '^(a)*$'), regexp(s2, 'ab')]"}
+var concTexts = []string{"a + b * 2", "$t = a, $t + b", "a + b", "[regexp(s1, 'ab'), regexp(s2, '^(a)*$'), regexp(s2, 'ab')]", "(m).a + b"}
 var concParseTexts = []string{"'\\u4F11\\u4F34'+'\\x41'", "'\\u0041\\x62\\u4e2d'", "1 +\n (2 *"}
 var concDatas = mustParse(`<< [a |-> <<"int", 1>>, b |-> <<"int", 2>>],
   [a |-> <<"dec", FALSE, <<1>>, 1>>, b |-> <<"f64", FALSE, <<5>>, -1>>],
   [a |-> <<"int64", FALSE, <<9,0,0,7,1,9,9,2,5,4,7,4,0,9,9,3>>>>, b |-> <<"int", -3>>],
   [s1 |-> <<"str", <<99,97,98>>>>, s2 |-> <<"str", <<97,97,97>>>>],
-  [s1 |-> <<"str", <<98,97>>>>, s2 |-> <<"str", <<97,98>>>>] >>`).([]any)
+  [s1 |-> <<"str", <<98,97>>>>, s2 |-> <<"str", <<97,98>>>>],
+  [m |-> <<"map", [a |-> <<"int", 4>>]>>, b |-> <<"dec", FALSE, <<1,5>>, -1>>] >>`).([]any)
 
 var (
 	sharedOnce  sync.Once
@@ -51,6 +53,19 @@ func SharedTrees() []*formula.SourceCode {
 		}
 	})
 	return sharedTrees
+}
+
+// freshSharedTrees parses the shared formulas again (trees nobody has used yet).
+func freshSharedTrees() []*formula.SourceCode {
+	var ts []*formula.SourceCode
+	for _, t := range concTexts {
+		src, err := formula.ParseSourceCode([]byte(t))
+		if err != nil {
+			panic(err)
+		}
+		ts = append(ts, src)
+	}
+	return ts
 }
 
 func concOutcome(r *formula.Runner, e formula.Expression) any {
@@ -214,6 +229,7 @@ func recordConc(args []string) int {
 	iters := fs.Int("iters", 500, "iterations per goroutine")
 	procs := fs.Int("procs", 0, "GOMAXPROCS")
 	one := fs.String("one", "", "re-run (the event carries g, iters, procs)")
+	deep := fs.Int("deep", 0, "if > 0: every goroutine evaluates a shared tree of this nesting depth, all at the same time")
 	fs.Parse(args)
 	if *one != "" {
 		if e, err := readEvent(*one); err == nil {
@@ -226,6 +242,9 @@ func recordConc(args []string) int {
 			if v, ok := jsonToVal(e["procs"]).(int64); ok {
 				*procs = int(v)
 			}
+			if v, ok := jsonToVal(e["deep"]).(int64); ok {
+				*deep = int(v)
+			}
 		}
 	}
 	if *procs > 0 {
@@ -237,56 +256,101 @@ func recordConc(args []string) int {
 		w   string
 		out string
 	}
-	var mu sync.Mutex
 	counts := map[key]int{}
 	raw := map[key][2]any{}
 	var wg sync.WaitGroup
-	for g := 0; g < *G; g++ {
-		wg.Add(1)
-		go func(g int) {
-			defer wg.Done()
-			for it := 0; it < *iters; it++ {
-				ti := (g + it) % len(trees)
-				var w, o any
-				switch (g + it/7) % 5 {
-				case 4: // parsing texts with escapes while others parse and evaluate
-					pi := (g + it) % len(concParseTexts)
-					obs, _ := ParseObserve(concParseTexts[pi])
-					w = []any{"parse", int64(pi + 1)}
-					o = obs
-				case 3: // analysis of the shared tree + parsing and formatting errors of other texts
-					all, e1 := formula.ResolveReferenceFields(trees[ti])
-					nl, e2 := formula.ResolveReferenceFieldsNotLocal(trees[ti])
-					w = []any{"fields", int64(ti + 1)}
-					o = []any{fieldSetValue(all, e1), fieldSetValue(nl, e2)}
-					if _, err := formula.ParseSourceCode([]byte("1 +\n (2 *")); err == nil {
-						o = []any{"BROKEN", "malformed text accepted"}
+	var deepTree *formula.SourceCode
+	if *deep > 0 {
+		src, err := formula.ParseSourceCode([]byte(strings.Repeat("(", *deep) + concTexts[2] + strings.Repeat(")", *deep)))
+		if err != nil {
+			fmt.Fprintln(os.Stderr, err)
+			return 2
+		}
+		deepTree = src
+	}
+	// rounds: every round starts from freshly parsed shared trees and releases all goroutines at once; within a round the
+	// goroutines do not synchronise with one another at all (results are kept per goroutine), so that a write to a shared
+	// tree on first use (lazy initialisation) is seen by the race detector as the race it is
+	const perRound = 25
+	type obsT struct{ w, o any }
+	local := make([][]obsT, *G)
+	for round := 0; round*perRound < *iters; round++ {
+		if round > 0 {
+			trees = freshSharedTrees()
+		}
+		start := make(chan struct{})
+		for g := 0; g < *G; g++ {
+			wg.Add(1)
+			go func(g int) {
+				defer wg.Done()
+				<-start
+				for it := round * perRound; it < (round+1)*perRound && it < *iters; it++ {
+					_ = it
+					ti := (g + it) % len(trees)
+					var w, o any
+					mode := (g + it/7) % 5
+					if deepTree != nil {
+						mode = 5
 					}
-					if src, err := formula.ParseSourceCode([]byte(concTexts[(ti+1)%len(concTexts)])); err != nil || src == nil {
-						o = []any{"BROKEN", "re-parse failed"}
+					switch mode {
+					case 5: // a deeply nested shared tree, evaluated by all goroutines at once
+						di := (g + it) % 3
+						dm, err := data.BuildMap(concDatas[di], nil)
+						if err != nil {
+							o = []any{"BROKEN", err.Error()}
+						} else {
+							r := formula.NewRunner()
+							r.SetThis(dm)
+							o = concOutcome(r, deepTree.Expression)
+						}
+						w = []any{"evaldeep", int64(3), int64(di + 1), int64(*deep)}
+					case 4: // parsing texts with escapes while others parse and evaluate
+						pi := (g + it) % len(concParseTexts)
+						obs, _ := ParseObserve(concParseTexts[pi])
+						w = []any{"parse", int64(pi + 1)}
+						o = obs
+					case 3: // analysis of the shared tree + parsing and formatting errors of other texts
+						all, e1 := formula.ResolveReferenceFields(trees[ti])
+						nl, e2 := formula.ResolveReferenceFieldsNotLocal(trees[ti])
+						w = []any{"fields", int64(ti + 1)}
+						o = []any{fieldSetValue(all, e1), fieldSetValue(nl, e2)}
+						if _, err := formula.ParseSourceCode([]byte("1 +\n (2 *")); err == nil {
+							o = []any{"BROKEN", "malformed text accepted"}
+						}
+						if src, err := formula.ParseSourceCode([]byte(concTexts[(ti+1)%len(concTexts)])); err != nil || src == nil {
+							o = []any{"BROKEN", "re-parse failed"}
+						}
+					default:
+						di := (g*3 + it) % 3
+						if ti == 3 {
+							di = 3 + (g+it)%2 // the regexp formula reads s1, s2
+						}
+						if ti == 4 {
+							di = 5
+						}
+						dm, err := data.BuildMap(concDatas[di], nil)
+						if err != nil {
+							o = []any{"BROKEN", err.Error()}
+						} else {
+							r := formula.NewRunner()
+							r.SetThis(dm)
+							o = concOutcome(r, trees[ti].Expression)
+						}
+						w = []any{"eval", int64(ti + 1), int64(di + 1)}
 					}
-				default:
-					di := (g*3 + it) % 3
-					if ti == 3 {
-						di = 3 + (g+it)%2 // the regexp formula reads s1, s2
-					}
-					dm, err := data.BuildMap(concDatas[di], nil)
-					if err != nil {
-						o = []any{"BROKEN", err.Error()}
-					} else {
-						r := formula.NewRunner()
-						r.SetThis(dm)
-						o = concOutcome(r, trees[ti].Expression)
-					}
-					w = []any{"eval", int64(ti + 1), int64(di + 1)}
+					local[g] = append(local[g], obsT{w, o})
 				}
-				k := key{tlaval.Format(w), tlaval.Format(o)}
-				mu.Lock()
-				counts[k]++
-				raw[k] = [2]any{w, o}
-				mu.Unlock()
-			}
-		}(g)
+			}(g)
+		}
+		close(start)
+		wg.Wait()
+	}
+	for _, l := range local {
+		for _, x := range l {
+			k := key{tlaval.Format(x.w), tlaval.Format(x.o)}
+			counts[k]++
+			raw[k] = [2]any{x.w, x.o}
+		}
 	}
 	wg.Wait()
 	var keys []key
@@ -296,7 +360,7 @@ func recordConc(args []string) int {
 	sort.Slice(keys, func(i, j int) bool { return keys[i].w+keys[i].out < keys[j].w+keys[j].out })
 	var evs []map[string]any
 	for _, k := range keys {
-		evs = append(evs, map[string]any{"ev": "conc", "w": raw[k][0], "out": raw[k][1], "count": counts[k], "g": *G, "iters": *iters, "procs": *procs,
+		evs = append(evs, map[string]any{"ev": "conc", "w": raw[k][0], "out": raw[k][1], "count": counts[k], "g": *G, "iters": *iters, "procs": *procs, "deep": *deep,
 			"input": fmt.Sprintf("workload %s under G=%d", k.w, *G), "site": "conc:free-running"})
 	}
 	if err := writeEvents(*out, evs); err != nil {
